@@ -145,6 +145,28 @@ def run(res, tier, rng, table_diffs=()):
                 r = {"<": cp(s) < cp(t), "<=": cp(s) <= cp(t), ">": cp(s) > cp(t), ">=": cp(s) >= cp(t), "==": s == t, "!=": s != t}[op]
                 q = lambda u: '"' + u.replace("\\", "\\\\").replace('"', '\\"') + '"'
                 cases.append(("string", "%s %s %s" % (q(s), op, q(t)), "ok b:ja" if r else "ok b:nee"))
+    # texts with LONG common prefixes and characters of every width straddling every byte offset (round 10): the first differing
+    # character decides, wherever it lies; expected value from the code-point order
+    from .. import gen2
+    chars = ["a", "b", "z", "0", "é", "ë", "ß", "€", "日", "😀", "\U00010000"]
+    for k in range(0, 14):
+        for c in chars[4:]:
+            pre = "1234567890123"[:k] + c
+            for a, b in [("1", "2"), ("", "x"), ("é", "e"), ("z", "é"), ("😀", "€")]:
+                for s, t in [(pre + a, pre + b), (pre + b, pre + a), (pre + a, pre + a)]:
+                    for op in ["<", "<=", ">", ">=", "==", "!="]:
+                        cp = lambda u: [ord(ch) for ch in u]
+                        r = {"<": cp(s) < cp(t), "<=": cp(s) <= cp(t), ">": cp(s) > cp(t), ">=": cp(s) >= cp(t), "==": s == t, "!=": s != t}[op]
+                        if op in ("<", "==", ">=") or k % 3 == 0:
+                            cases.append(("string-long-prefix", '"%s" %s "%s"' % (s, op, t), "ok b:ja" if r else "ok b:nee"))
+    for _ in range(300 if tier == "quick" else 6000):
+        pre = "".join(rng.pick(chars) for _ in range(rng.below(9)))
+        s = pre + "".join(rng.pick(chars) for _ in range(rng.below(3)))
+        t = pre + "".join(rng.pick(chars) for _ in range(rng.below(3)))
+        op = rng.pick(["<", "<=", ">", ">=", "==", "!="])
+        cp = lambda u: [ord(ch) for ch in u]
+        r = {"<": cp(s) < cp(t), "<=": cp(s) <= cp(t), ">": cp(s) > cp(t), ">=": cp(s) >= cp(t), "==": s == t, "!=": s != t}[op]
+        cases.append(("string-long-prefix", 'functie c(u, v) { u %s v }; c("%s", "%s")' % (op, s, t), "ok b:ja" if r else "ok b:nee"))
     samples = {"null": "als nee { 1 }", "bool": "ja", "int": "3", "float": "1.5", "str": '"a"', "arr": "[1]", "fn": "functie() { 1 }"}
     for ta, sa in samples.items():
         for tb, sb in samples.items():
